@@ -218,19 +218,40 @@ func rpShortcut(r *rux.Router, m string) func(string, rux.HandlerFunc, ...rux.Ha
 }
 
 type rpEnv struct {
+	shared map[string][]rux.HandlerFunc
 	r      *rux.Router
 	hs     map[int]rux.HandlerFunc
 	routes []*rux.Route
 }
 
 func (e *rpEnv) handlers(ids []Sx) []rux.HandlerFunc {
-	var out []rux.HandlerFunc
+	// a caller that passes the same list of middleware twice passes the same slice (as in  mws := []HandlerFunc{a, b};
+	// r.Group("/x", f, mws...); r.Group("/y", g, mws...) ): lists of two or more ids are kept and handed out again
+	key := ""
+	for _, id := range ids {
+		key += id.Atom + ","
+	}
+	if len(ids) >= 2 {
+		if sl, ok := e.shared[key]; ok {
+			return sl
+		}
+	}
+	out := make([]rux.HandlerFunc, 0, len(ids))
 	for _, id := range ids {
 		h, ok := e.hs[id.Int()]
 		if !ok {
 			panic(fmt.Sprintf("rp: unknown handler %d", id.Int()))
 		}
 		out = append(out, h)
+	}
+	if len(ids) >= 2 {
+		if e.shared == nil {
+			e.shared = map[string][]rux.HandlerFunc{}
+		}
+		e.shared[key] = out
+	}
+	if len(out) == 0 {
+		return nil
 	}
 	return out
 }
